@@ -288,7 +288,7 @@ Proof. exists (mk_inp false false false true true false true false false false f
 
 (* the listings on an empty candidate list show nothing, for every caller *)
 Lemma listing_empty u : load_general_boards u [] = [] /\ load_autocomplete_boards u [] = [] /\
-  load_boards_by_bids u [] = [] /\ load_hot_boards u [] = [] /\ load_class_boards u [] = [].
+  load_boards_by_bids u [] = [] /\ load_hot_boards u [] = [] /\ forall cc, load_class_boards u cc [] = Ok [].
 Proof. repeat split; reflexivity. Qed.
 
 (* ------------------------------------------------------------------ listings *)
@@ -395,6 +395,128 @@ Proof. exists (mk_user 31 false), (mk_board 10 true 48 0 false false false true)
 Example listing_shows_to_named_moderator : exists u b, may_read (row u b) = false /\
   exists s, load_general_boards u [b] = [s] /\ s_title s = true.
 Proof. exists (mk_user 31 false), (mk_board 10 true 48 0 false false true true). vm_compute. eauto. Qed.
+
+(* ------------------------------------------------------------------ class listings *)
+(* loadClassBoardStat answers exactly for the children the specification lists *)
+Lemma class_stat_listable u b : load_class_board_stat u b = if class_listable u b then Some b else None.
+Proof.
+  unfold load_class_board_stat, class_listable. rewrite visible_may_list.
+  destruct (b_named b), (is_group b), (may_list (row u b)); reflexivity.
+Qed.
+
+(* the walk: for every chain and every accumulated prefix within the bound, it returns (never Crash), and what it returns
+   is the accumulated prefix followed by the listable children of the rest of the chain, in chain order, cut at the bound *)
+Lemma class_walk_spec u cap : forall chain acc, (length acc <= cap)%nat ->
+  class_walk true u cap chain acc = Ok (firstn cap (rev acc ++ filter (class_listable u) chain)).
+Proof.
+  induction chain as [| b rest IH]; intros acc Hlen; cbn [class_walk filter].
+  - rewrite app_nil_r. rewrite firstn_all2; [reflexivity | rewrite rev_length; exact Hlen].
+  - destruct (Nat.ltb (length acc) cap) eqn:E.
+    + apply Nat.ltb_lt in E. rewrite class_stat_listable. destruct (class_listable u b).
+      * rewrite IH; [| cbn [length]; lia]. cbn [rev]. rewrite <- app_assoc. reflexivity.
+      * apply IH. exact Hlen.
+    + apply Nat.ltb_ge in E. assert (Hc : cap = length (rev acc)) by (rewrite rev_length; lia).
+      rewrite Hc at 1. rewrite firstn_app, firstn_all, Nat.sub_diag. cbn [firstn]. rewrite app_nil_r. reflexivity.
+Qed.
+
+Lemma firstn_map_comm {A B} (f : A -> B) n : forall l, firstn n (map f l) = map f (firstn n l).
+Proof. induction n as [| n IH]; intros [| x l]; cbn [firstn map]; [reflexivity .. |]. rewrite IH. reflexivity. Qed.
+
+(* LoadClassBoards: returns for every chain; the listing is the chain filtered by the specification, order kept *)
+Lemma class_listing_eq u cc chain :
+  load_class_boards u cc chain = Ok (firstn (cc + 5) (map (summarize true u) (filter (class_listable u) chain))).
+Proof.
+  unfold load_class_boards. rewrite class_walk_spec; [| cbn [length]; lia]. cbn [rev app res_map].
+  rewrite firstn_map_comm. reflexivity.
+Qed.
+
+Lemma full_class_listing_eq u boards :
+  load_full_class_boards u boards = map (summarize true u) (filter (class_listable u) boards).
+Proof.
+  unfold load_full_class_boards. f_equal.
+  induction boards as [| b r IH]; cbn [flat_map filter]; [reflexivity |].
+  rewrite class_stat_listable. destruct (class_listable u b); cbn [app]; rewrite IH; reflexivity.
+Qed.
+
+Lemma firstn_In {A} n : forall (l : list A) x, In x (firstn n l) -> In x l.
+Proof.
+  induction n as [| n IH]; intros [| y l] x; cbn [firstn In]; try (intros Hf; exact Hf).
+  - intros Hf; destruct Hf.
+  - intros [H | H]; [left; exact H | right; apply IH; exact H].
+Qed.
+
+Lemma nodup_map_inj {A B} (f : A -> B) : forall l x y, NoDup (map f l) -> In x l -> In y l -> f x = f y -> x = y.
+Proof.
+  induction l as [| z l IH]; intros x y Hnd Hx Hy Hf; [destruct Hx |].
+  cbn [map] in Hnd. inversion Hnd as [| ? ? Hnot Hnd']; subst.
+  destruct Hx as [Hx | Hx], Hy as [Hy | Hy].
+  - congruence.
+  - subst z. exfalso. apply Hnot. rewrite Hf. apply in_map. exact Hy.
+  - subst z. exfalso. apply Hnot. rewrite <- Hf. apply in_map. exact Hx.
+  - apply IH; assumption.
+Qed.
+
+Lemma class_listable_parts u b : class_listable u b = true -> b_named b = true /\ is_group b = true /\ may_list (row u b) = true.
+Proof. unfold class_listable. intros H. apply andb_prop in H. destruct H as [H12 H3]. apply andb_prop in H12. destruct H12 as [H1 H2]. auto. Qed.
+
+(* the packaged statement: see Props/C07.v *)
+Lemma class_listing : forall u cc chain,
+  exists l, load_class_boards u cc chain = Ok l /\
+    l = firstn (cc + 5) (map (summarize true u) (filter (class_listable u) chain)) /\
+    (forall s, In s l -> exists b, In b chain /\ s = summarize true u b /\ s_bid s = b_bid b /\
+       b_named b = true /\ is_group b = true /\ may_list (row u b) = true /\ s_title s = true) /\
+    ((length (filter (class_listable u) chain) <= cc + 5)%nat -> NoDup (map b_bid chain) ->
+       forall b, In b chain -> (In (b_bid b) (map s_bid l) <-> b_named b && is_group b && may_list (row u b) = true)).
+Proof.
+  intros u cc chain. eexists. split; [apply class_listing_eq |]. split; [reflexivity |].
+  assert (Sound : forall s, In s (firstn (cc + 5) (map (summarize true u) (filter (class_listable u) chain))) ->
+            exists b, In b chain /\ s = summarize true u b /\ s_bid s = b_bid b /\
+              b_named b = true /\ is_group b = true /\ may_list (row u b) = true /\ s_title s = true).
+  { intros s Hs. apply firstn_In in Hs. apply in_listing in Hs. destruct Hs as (b & Hb & Hf & Hs).
+    destruct (class_listable_parts u b Hf) as (Hn & Hg & Hl).
+    exists b. subst s. rewrite summarize_bid, summarize_title. auto 8. }
+  split; [exact Sound |].
+  intros Hfit Hnd b Hb. fold (class_listable u b). split.
+  - intros Hin. apply in_map_iff in Hin. destruct Hin as (s & Hbid & Hs).
+    destruct (Sound s Hs) as (b' & Hb' & _ & Hbid' & Hn & Hg & Hl & _).
+    assert (b' = b) by (apply (nodup_map_inj b_bid chain); [exact Hnd | exact Hb' | exact Hb | congruence]).
+    subst b'. unfold class_listable. rewrite Hn, Hg, Hl. reflexivity.
+  - intros Hl. rewrite firstn_all2; [| rewrite map_length; exact Hfit].
+    rewrite map_map. apply in_map_iff. exists b. split; [apply summarize_bid |]. apply filter_In. auto.
+Qed.
+
+Lemma full_class_listing : forall u boards,
+  load_full_class_boards u boards = map (summarize true u) (filter (class_listable u) boards) /\
+  (forall s, In s (load_full_class_boards u boards) -> exists b, In b boards /\ s = summarize true u b /\ s_bid s = b_bid b /\
+     b_named b = true /\ is_group b = true /\ may_list (row u b) = true /\ s_title s = true) /\
+  (forall b, In b boards -> b_named b && is_group b && may_list (row u b) = true -> In (summarize true u b) (load_full_class_boards u boards)).
+Proof.
+  intros u boards. split; [apply full_class_listing_eq |]. rewrite full_class_listing_eq. split.
+  - intros s Hs. apply in_listing in Hs. destruct Hs as (b & Hb & Hf & Hs).
+    destruct (class_listable_parts u b Hf) as (Hn & Hg & Hl).
+    exists b. subst s. rewrite summarize_bid, summarize_title. auto 8.
+  - intros b Hb Hl. apply in_listing. exists b. auto.
+Qed.
+
+(* non-vacuity: a plain user on the chain [hidden class; class requiring SYSOP; unrestricted class; ordinary board;
+   vacated slot; link] gets the third and the last entry — the walk goes on past every child it skips ... *)
+Example class_listing_goes_on :
+  let u := mk_user 31 false in
+  let chain := [mk_board 3 true 56 0 false false false true; mk_board 2 true 8 16384 false false false true;
+                mk_board 5 true 8 0 false false false true; mk_board 8 true 0 0 false false false true;
+                mk_board 9 false 8 0 false false false true; mk_board 11 true 32768 0 false false false true] in
+  option_map (map s_bid) (match load_class_boards u 6 chain with Ok l => Some l | _ => None end) = Some [5; 11] /\
+  map s_bid (load_full_class_boards u chain) = [5; 11].
+Proof. vm_compute. auto. Qed.
+(* ... where the loop as it was before the repair (header taken from loadClassBoardStat's nil result) crashed *)
+Example class_walk_before_repair_crashed :
+  class_walk false (mk_user 31 false) 7 [mk_board 2 true 8 16384 false false false true; mk_board 5 true 8 0 false false false true] [] = Crash.
+Proof. vm_compute. reflexivity. Qed.
+(* the bound: a sysop on seven unrestricted classes with ChildCount 0 gets the first five *)
+Example class_listing_bound :
+  load_class_boards (mk_user 16415 false) 0 (map (fun k => mk_board k true 8 0 false false false true) [2; 3; 4; 5; 6; 7; 8]) =
+  Ok (map (summarize true (mk_user 16415 false)) (map (fun k => mk_board k true 8 0 false false false true) [2; 3; 4; 5; 6])).
+Proof. vm_compute. reflexivity. Qed.
 
 (* ------------------------------------------------------------------ newBoardStat's write to the board header *)
 (* a listing may set BRD_POSTMASK on a hidden board; that can only take read access away, never grant it *)
